@@ -152,8 +152,40 @@ def gen_case(rng, direction, opts=None):
         dst.pop(victim, None)
         dst[victim + "/inner"] = (b"inner", (1_600_000_000, 0))
         states[victim] = "clash"
+    # siblings whose name EXTENDS another's (`data` beside `data.old`, `target` beside `target-x86`, `f` beside
+    # `f.bak`), the longer one excluded by a slash-free pattern, present on both sides: a walk that recognises
+    # "still inside the directory I just visited" by string prefix cuts the longer name in the middle. Drawn from a
+    # side stream so that the trees above stay what they were.
+    r3 = SplitMix.derive(rng.s, "prefix-siblings", 0)
+    sib_pats = []
+    if opts.get("prefix_siblings", True) and r3.chance(1, 4):
+        pool = [p for p in names if "/" in p and "\n" not in p and p in src] or None
+        if pool is None:
+            base = r3.pick(["data", "proj/target", "a b"])
+            for p, d in ((base + "/keep.txt", b"keep"), (base + "/z-last", b"z")):
+                if not any(q == p or q.startswith(p + "/") or p.startswith(q + "/") for q in names):
+                    src[p] = (d, (1_700_000_000, 0))
+                    names.append(p)
+            pool = [p for p in names if p.startswith(base + "/")]
+        if pool:
+            victim = r3.pick(pool)
+            comps = victim.split("/")
+            lvl = r3.below(len(comps) - 1)  # a directory component of the victim
+            suffix = r3.pick([".old", "-x86", "2", " copy", "~", ".d"])
+            ext = "/".join(comps[:lvl] + [comps[lvl] + suffix])
+            for leaf, where in (("secret.txt", "src"), ("precious.txt", "dst"), ("both.txt", "both")):
+                p = ext + "/" + leaf
+                if any(q == p or q.startswith(p + "/") or p.startswith(q + "/") for q in names) or len(p.encode()) > 900:
+                    continue
+                names.append(p)
+                if where in ("src", "both"):
+                    src[p] = (b"src bytes of " + leaf.encode(), (1_700_000_000, 0))
+                if where in ("dst", "both"):
+                    dst[p] = (b"dst bytes of " + leaf.encode() + b"+", (1_600_000_000, 0))
+                states[p] = "sibling-" + where
+            sib_pats.append(r3.pick([comps[lvl] + suffix, "*" + suffix, comps[lvl] + suffix + "/", comps[lvl][:1] + "*" + suffix]))
     # exclude patterns drawn from the tree's own names
-    pats = []
+    pats = list(sib_pats) if opts.get("excludes", True) else []
     for _ in range(rng.pick([0, 0, 1, 1, 2, 3]) if opts.get("excludes", True) else 0):
         base = rng.pick(names)
         comps = base.split("/")
